@@ -17,8 +17,10 @@ Cm(d, t) == [dev |-> d, st |-> 0, ver |-> 1, mt |-> 3, pt |-> 1, ts |-> << 0, 0,
              vid |-> 10 * d + t, fl |-> 0, pl |-> [j \in 1..36 |-> IF j = 1 THEN t ELSE 0]]
 If(d, i, t) == [dev |-> d, st |-> 0, ver |-> 1, mt |-> 3, pt |-> 2, ts |-> << 0, 0, 0, 0, 0, i, d, t >>, ifid |-> << 0, 0, 0, 0 >>,
                 vid |-> 100 * i + t, fl |-> 0, pl |-> << 0, 0, 0, i >> \o [j \in 1..36 |-> IF j = 1 THEN t ELSE 0]]
-Data(d) == [dev |-> d, st |-> 0, ver |-> 1, mt |-> 1, pt |-> 255, ts |-> << 0, 0, 0, 0, 0, 0, d, 9 >>, ifid |-> << 0, 0, 0, 1 >>,
-            vid |-> 0, fl |-> 0, pl |-> << 1, 2, 3, 4 >>]
+(* packets that are no status messages; their payload-type byte alone may look like one (CAN 0x0101, CAN-FD 0x0102, ...) *)
+DataKinds == << << 1, 1 >>, << 1, 2 >>, << 1, 255 >>, << 2, 2 >>, << 255, 1 >> >>
+Data(d, k) == [dev |-> d, st |-> 0, ver |-> 1, mt |-> DataKinds[k][1], pt |-> DataKinds[k][2], ts |-> << 0, 0, 0, 0, 0, 0, d, 9 >>,
+               ifid |-> << 0, 0, 0, 1 >>, vid |-> 0, fl |-> 0, pl |-> [j \in 1..40 |-> IF j = 4 THEN 2 ELSE 0]]
 IfId(i) == << 0, 0, 0, i >>
 
 Init == vec = << >> /\ map = EmptyMap /\ hist = [key |-> << >>, last |-> [op |-> "new"]]
@@ -34,8 +36,8 @@ Next ==
           LET p == Cm(d, t) IN Do(VecUpdate(vec, p), MapUpdate(map, p), 1000 + 10 * d + t, [op |-> "update", pkt |-> p])
     \/ \E d \in AllDevs, i \in Ifs, t \in Tags :
           LET p == If(d, i, t) IN Do(VecUpdate(vec, p), MapUpdate(map, p), 2000 + 100 * d + 10 * i + t, [op |-> "update", pkt |-> p])
-    \/ \E d \in AllDevs :
-          LET p == Data(d) IN Do(VecUpdate(vec, p), MapUpdate(map, p), 3000 + d, [op |-> "update", pkt |-> p])
+    \/ \E d \in AllDevs, k \in 1..Len(DataKinds) :
+          LET p == Data(d, k) IN Do(VecUpdate(vec, p), MapUpdate(map, p), 3000 + 10 * d + k, [op |-> "update", pkt |-> p])
     \/ \E d \in AllDevs : Do(VecRemoveDev(vec, d), MapRemoveDev(map, d), 4000 + d, [op |-> "removeDev", dev |-> d])
     \/ \E d \in AllDevs, i \in Ifs :
           Do(VecRemoveIf(vec, d, IfId(i)), MapRemoveIf(map, d, IfId(i)), 5000 + 10 * d + i, [op |-> "removeIf", dev |-> d, ifid |-> IfId(i)])
